@@ -120,13 +120,19 @@ func (n *nativeRunner) schedOverlay() (string, error) {
 				continue
 			}
 			var nb []byte
+			if bytes.Contains(b, []byte("\t\"sync/atomic\"\n")) {
+				b = bytes.Replace(b, []byte("\t\"sync/atomic\"\n"), []byte("\tatomic \"github.com/aukilabs/hagall/internal/verifatomic\"\n"), 1)
+				nb = b
+			}
 			switch {
 			case bytes.Contains(b, []byte("\t\"sync\"\n")):
 				nb = bytes.Replace(b, []byte("\t\"sync\"\n"), []byte("\tsync \"github.com/aukilabs/hagall/internal/verifsync\"\n"), 1)
 			case bytes.Contains(b, []byte("import \"sync\"\n")):
 				nb = bytes.Replace(b, []byte("import \"sync\"\n"), []byte("import sync \"github.com/aukilabs/hagall/internal/verifsync\"\n"), 1)
 			default:
-				continue
+				if nb == nil {
+					continue
+				}
 			}
 			if dir == "websocket" && name == "handler.go" {
 				// the engine treats queueing a message for a client as a scheduling point: same hook natively
